@@ -54,6 +54,8 @@ LIST_OPS = {
 CORE6 = {"dict": ("setitem_diff", "setitem_same", "delitem", "setdefault_same", "update", "clear", "reset"),
          "list": ("append", "append_nested", "insert", "delitem", "pop", "reverse", "reset")}
 CORE3 = {"dict": ("setitem_diff", "update", "pop"), "list": ("append", "insert", "delitem")}
+CORE5 = {"dict": ("setitem_diff", "setdefault_same", "update", "clear", "reset"),
+         "list": ("append", "append_nested", "pop", "delitem", "reset")}
 OPS = {"dict": DICT_OPS, "list": LIST_OPS}
 
 
@@ -132,7 +134,7 @@ def plan(tier, seed):
                     for topo in topos_all:
                         if topo in ("same-listchild", "children-of-two-objects"):
                             continue  # thorough tier only
-                        programs1 += pairs_for(c, topo, CORE6)
+                        programs1 += pairs_for(c, topo, CORE6 if topo in ("same", "two-objects") else CORE5)
                 else:
                     full = {"dict": tuple(DICT_OPS), "list": tuple(LIST_OPS)}
                     for topo in topos_all:
